@@ -2,9 +2,9 @@ package comp
 
 import (
 	"context"
+	"crypto/sha256"
 	"encoding/binary"
 	"encoding/hex"
-	"crypto/sha256"
 	"encoding/json"
 	"fmt"
 	"math"
